@@ -42,7 +42,7 @@ func (c05) ChildTimeout(tier string) time.Duration {
 	return 15 * time.Minute
 }
 
-var c05Classes = []string{"valid-program", "token-mutation", "line-deletion", "truncation", "invalid-by-construction", "raw-bytes", "blank-input", "reader-split"}
+var c05Classes = []string{"valid-program", "edge-character", "token-mutation", "line-deletion", "truncation", "invalid-by-construction", "raw-bytes", "blank-input", "reader-split"}
 
 func (c05) Thresholds(tier string) map[string]int64 {
 	th := map[string]int64{
@@ -64,6 +64,9 @@ func (c05) Thresholds(tier string) map[string]int64 {
 		"empty-input":                     100,
 		"mutation-still-valid":            1000,
 		"label-checks":                    3500,
+		"edge-character:invalid":          800,
+		"edge-character:at-start":         500,
+		"edge-character:at-end":           500,
 		"by-construction:mixed-indentation-not-deeper": 30,
 		"by-construction:content-after-last-node":      300,
 	}
@@ -77,7 +80,7 @@ func (c05) Thresholds(tier string) map[string]int64 {
 }
 
 func (c05) Rule() string {
-	return "case = 50 inputs derived from one generated valid program rendered in a PRNG layout: the program itself (must load); a valid program spread over 2-4 readers (must load) and the same readers with one of them made invalid by construction; token-level mutations (delete / duplicate / swap / insert / replace from a dictionary of << >> { } === --- -> <<if <<endif>> <<else>> # \\\\ \" ( , [ space/tab, stray > ...); line deletions; truncations at PRNG byte offsets; mutations that are invalid by construction (unbalanced <<endif>>, {1 +}, missing ===, tab+space indentation of a statement); raw byte strings with invalid UTF-8, NUL and lone CR; empty and white-space-only inputs; each input also cut at PRNG byte offsets into 2-4 readers. Validity oracle: an independent parse in the harness with the grammar's lexer and parser and the harness's own counting error listeners - valid iff no lexer error, no parser error, the parser stopped at end of input, and - judged by the harness itself, not by the lexer - no line that carries a statement is indented with both tabs and blanks; a multi-reader input is valid iff every reader is. The oracle is cross-checked by two labels (generated programs are valid, the by-construction mutations are invalid); a disagreement there is a harness error (inconclusive). Verdict: NewDialogueRunner returns (panics are caught; a call that does not return is caught by the child watchdog and confirmed alone) and err == nil iff the input is valid. Seeds: 20 strings per case over arbitrary bytes, length 0-40: an error iff a character outside [0-9a-z] occurs, never a panic. Non-trivial: a mutation the oracle rejects, a valid program in a non-canonical layout, or a multi-reader split. Distinct by hash of the readers."
+	return "case = 50 inputs derived from one generated valid program rendered in a PRNG layout: the program itself (must load); a valid program spread over 2-4 readers (must load) and the same readers with one of them made invalid by construction; token-level mutations (delete / duplicate / swap / insert / replace from a dictionary of << >> { } === --- -> <<if <<endif>> <<else>> # \\\\ \" ( , [ space/tab, stray > ...); line deletions; truncations at PRNG byte offsets; mutations that are invalid by construction (unbalanced <<endif>>, {1 +}, missing ===, tab+space indentation of a statement); raw byte strings with invalid UTF-8, NUL and lone CR; empty and white-space-only inputs; a valid script with one stray character (form feed, vertical tab, NEL, NBSP, ideographic space, line separator, BOM, NUL, zero-width space) or a white-space run at its very start or very end, or blank lines followed by an indented first header; each input also cut at PRNG byte offsets into 2-4 readers. Validity oracle: an independent parse in the harness with the grammar's lexer and parser and the harness's own counting error listeners - valid iff no lexer error, no parser error, the parser stopped at end of input, and - judged by the harness itself, not by the lexer - no line that carries a statement is indented with both tabs and blanks; a multi-reader input is valid iff every reader is. The oracle is cross-checked by two labels (generated programs are valid, the by-construction mutations are invalid); a disagreement there is a harness error (inconclusive). Verdict: NewDialogueRunner returns (panics are caught; a call that does not return is caught by the child watchdog and confirmed alone) and err == nil iff the input is valid. Seeds: 20 strings per case over arbitrary bytes, length 0-40: an error iff a character outside [0-9a-z] occurs, never a panic. Non-trivial: a mutation the oracle rejects, a valid program in a non-canonical layout, or a multi-reader split. Distinct by hash of the readers."
 }
 
 func (c05) Assumptions() []string {
@@ -394,7 +397,25 @@ func (p c05) Run(c *core.Ctx) {
 	}
 	for i := 0; i < 50; i++ {
 		var in, class, label string
-		switch r.PickW(34, 8, 14, 14, 12, 6, 12) {
+		switch r.PickW(34, 8, 14, 14, 12, 6, 12, 8) {
+		case 7:
+			// one stray character (white space that is not a blank, tab, CR or LF; BOM; NUL) or a white-space
+			// run at the very start or the very end of a valid script, or an indented first header after
+			// blank lines: nothing may be trimmed away before the input is judged
+			ch := r.Pick("\f", "\v", "\u0085", "\u00a0", "\u3000", "\u2028", "\ufeff", "\x00", "\u200b", "\n\n  ", "\n \t", " ", "\t", "\r\n\r\n", "\n\f\n")
+			if r.Bool() {
+				in = ch + base
+				c.Feature("edge-character:at-start")
+			} else {
+				in = base + ch
+				c.Feature("edge-character:at-end")
+			}
+			class = "edge-character"
+			if v, _, _ := oracleValid(in); v {
+				c.Feature("edge-character:still-valid")
+			} else {
+				c.Feature("edge-character:invalid")
+			}
 		case 0:
 			in, class = mutate(r, base), "token-mutation"
 		case 1:
